@@ -608,7 +608,7 @@ class DimArrayOnDisk(GetSetDelAttrMixin, NetCDFVariable, AbstractDimArray):
         axes = []
         for i, ix in enumerate(idx_tuple):
             ax = self.axes[i][ix]
-            if np.ndim(ax) != 0: # do not include scalar axes
+            if isinstance(ax, AbstractAxis): # do not include scalar axes (np.ndim(ax) would read a metadata entry named 'ndim')
                 axes.append(ax)
         return axes
 
